@@ -2,7 +2,10 @@ module gosymex
 
 go 1.23
 
-require golang.org/x/tools v0.29.0
+require (
+	github.com/barbashov/iso639-3 v0.0.0-20211020172741-1f4ffb2d8d1c
+	golang.org/x/tools v0.29.0
+)
 
 require (
 	golang.org/x/mod v0.22.0 // indirect
